@@ -30,9 +30,12 @@ from primaite.simulator.system.applications.application import Application  # no
 
 PKG = os.path.join(os.path.dirname(primaite.__file__), "config", "_package_data")
 SCENARIOS = ["data_manipulation.yaml", "uc7_config.yaml"]
-CAP = 3
+THOROUGH = os.environ.get("VERIF_TIER") == "thorough"
+if THOROUGH:  # the other shipped networks too, and more nodes / parameter choices per signature
+    SCENARIOS += ["multi_lan_internet_network_example.yaml", "basic_lan_network_example.yaml", "client_server_p2p_network_example.yaml"]
+CAP = 5 if THOROUGH else 3
 # nodes tried per scenario and node class (the routes depend on the class and the installed software, not on the name)
-PER_CLASS = 2
+PER_CLASS = 4 if THOROUGH else 2
 
 
 def load(name):
@@ -123,7 +126,7 @@ def expand(cls, node, game):
             return
         names.append(k)
         axes.append(c)
-    for combo in itertools.islice(itertools.product(*axes), 12):
+    for combo in itertools.islice(itertools.product(*axes), 40 if THOROUGH else 12):
         d = dict(zip(names, combo))
         fs = getattr(node, "file_system", None)
         for fk, dk in (("file_name", "folder_name"), ("target_file_name", "target_folder_name")):
